@@ -172,7 +172,88 @@ def rule_shared_sent(R):
     _r(R)
 
 
+def clause_pubrec_success_continues(R, key):
+    """A PUBREC that accepted the message (any success code: 0x00, 0x10 "no matching subscribers") takes the PUBLISH out of
+    the retained list -- from then on only the release entry keeps the identifier reserved and gets the PUBREL sent.  So on
+    every path of the PUBREC arm on which the retained removal succeeded and the reason code was found to be a success,
+    the release entry is queued.  The reason tests (failed / success / as_result / `?`) are correlated as outcomes of one
+    predicate; a test against one particular success code is not, so `reason != Success` standing in for `failed()` leaves
+    a path where a success code ends the exchange silently."""
+    from .c06 import reason_hook
+    from .. import paths
+    f = R.f
+    hb, sw = outq.inbound_handler(f)
+    _, entry, blocks = outq.handler_arm(f, "PubRec")
+    rem = outq.role_fn(f, "retained_removal")
+    qrel = outq.role_fn(f, "queue_release")
+    rcalls = [c for c in outq.calls_to(f, hb, rem) if c.bb in blocks]
+    qb = set(c.bb for c in outq.calls_to(f, hb, qrel) if c.bb in blocks)
+    starts = []
+    all_removed = [e_ for rc in rcalls for e_ in outq.removed_edges(f, hb, rc, rem)]
+    for rc in rcalls:
+        for (_, t_) in outq.removed_edges(f, hb, rc, rem):
+            # only the first test of the "removed" outcome (a later re-test starts behind the reason check)
+            if not any(t_ in hb.reach([t2]) and t_ != t2 for (_, t2) in outq.removed_edges(f, hb, rc, rem)):
+                starts.append(t_)
+    bad, n = None, 0
+    base_hook = reason_hook("PubRec")
+
+    def hook(body, bb, si):
+        r = base_hook(body, bb, si)
+        if r is not None:
+            return r
+        # a flag that carries the verdict (`let resolved = reason.failed(); .. queue_release = !resolved`): on the paths
+        # followed here (the removal succeeded) the flag is that verdict, possibly negated
+        e = si["edges"]
+        if True not in e or False not in e:
+            return None
+        for alt in phi_alts(si["subject"]):
+            a, neg = peel(alt), False
+            while a[0] == "un" and a[1] == "Not":
+                a, neg = peel(a[2]), not neg
+            if a[0] != "call" or not any(y[0] == "downcast" and y[2] == "PubRec" for y in walk(a)):
+                continue
+            key = ("reason", show(peel(a[3][0]))) if a[3] else None
+            if key is None:
+                continue
+            if is_call(a, "ReasonCode::failed"):
+                return key, ({"fail": e[False], "ok": e[True]} if neg else {"fail": e[True], "ok": e[False]})
+            if is_call(a, "ReasonCode::success"):
+                return key, ({"ok": e[False], "fail": e[True]} if neg else {"ok": e[True], "fail": e[False]})
+        return None
+    for ts in starts:
+        for lf in paths.explore(hb, ts, lambda x: False, lambda b, bb: bb in qb, switch_hook=hook, max_paths=3000):
+            if lf["kind"] != "return":
+                continue
+            failing = any(k[0] == "reason" and v == "fail" for k, v in lf["cons"].items() if isinstance(k, tuple))
+            # a later re-test of the removal's outcome (`if !first_pubrec { .. }`) can only go the "removed" way on these paths
+            infeasible = False
+            pth = lf["path"]
+            for k_ in range(len(pth) - 1):
+                for (sb_, t_) in all_removed:
+                    if pth[k_] == sb_ and pth[k_ + 1] != t_:
+                        infeasible = True
+            if infeasible:
+                continue
+            v = paths.value_on_path(hb, lf["path"], 0)
+            is_err = v is not None and ((peel(v)[0] == "agg" and peel(v)[3] == "Err") or is_call(peel(v), "core::ops::FromResidual::from_residual", "from_residual"))
+            if failing or is_err:
+                continue
+            n += 1
+            if not lf["marked"]:
+                bad = lf
+    R.ob(key, bool(starts) and bool(qb) and n > 0 and bad is None,
+         "in the PUBREC arm every path on which the PUBLISH was taken out of the retained list and the reason code was a "
+         "success queues the release entry (%d such paths)%s" % (n, "" if bad is None else ": one returns without it"),
+         where=hb.line(entry))
+
+
+def rule_success_continues(R):
+    clause_pubrec_success_continues(R, "rel/success-continues")
+
+
 def run(R):
+    R.rule("success-continues", rule_success_continues)
     R.rule("sent", rule_shared_sent)
     R.rule("reason", rule_reason)
     R.rule("final", rule_final)
